@@ -19,6 +19,7 @@
 #include <sys/mman.h>
 #include <sys/stat.h>
 #include <sys/wait.h>
+#include <sys/time.h>
 #include <unistd.h>
 
 namespace eng {
@@ -64,19 +65,31 @@ void Ctx::send(char kind, const std::string& payload)
 	}
 }
 
+// Watchdog. The budget is CPU time of the child (ITIMER_PROF -> SIGPROF), so that a verdict about "does not return"
+// never depends on how busy the machine is; a wall-clock alarm far behind it (SIGALRM) only catches a call that
+// blocks without using the CPU, and is never more than inconclusive.
+static void arm(unsigned cpuSeconds)
+{
+	struct itimerval it;
+	std::memset(&it, 0, sizeof it);
+	it.it_value.tv_sec = cpuSeconds;
+	setitimer(ITIMER_PROF, &it, nullptr);
+	alarm(cpuSeconds * 10 + 60);
+}
+
 void Ctx::lib_begin(const std::string& phase)
 {
 	std::strncpy(shm_->phase, phase.c_str(), sizeof(shm_->phase) - 1);
 	shm_->phase[sizeof(shm_->phase) - 1] = 0;
 	shm_->lib_calls = shm_->lib_calls + 1;
 	shm_->in_lib = 1;
-	alarm(opt().lib_timeout);
+	arm(opt().lib_timeout);
 }
 
 void Ctx::lib_end()
 {
 	shm_->in_lib = 0;
-	alarm(opt().oracle_timeout);
+	arm(opt().oracle_timeout);
 }
 
 void Ctx::fail(const std::string& sig, const std::string& msg)
@@ -139,8 +152,9 @@ CaseResult evaluate_once(const Raw& raw, unsigned libTimeout)
 		close(fds[0]);
 		if (g_errfd >= 0) dup2(g_errfd, 2);
 		signal(SIGALRM, SIG_DFL);
+		signal(SIGPROF, SIG_DFL);
 		opt().lib_timeout = libTimeout;
-		alarm(opt().oracle_timeout);
+		arm(opt().oracle_timeout);
 		Ctx ctx(fds[1], g_shm);
 		try {
 			harness::run_case(raw, ctx);
@@ -208,9 +222,12 @@ CaseResult evaluate_once(const Raw& raw, unsigned libTimeout)
 	const std::string phase(g_shm->phase);
 	const bool inLib = g_shm->in_lib != 0;
 	if (!finished) {
-		if (WIFSIGNALED(status) && WTERMSIG(status) == SIGALRM) {
+		if (WIFSIGNALED(status) && WTERMSIG(status) == SIGPROF) {
 			if (inLib) { res.timeout = true; res.incon.push_back("timeout:" + phase); }
 			else { res.incon.push_back("oracle-timeout after " + phase); }
+		}
+		else if (WIFSIGNALED(status) && WTERMSIG(status) == SIGALRM) {
+			res.incon.push_back((inLib ? "wall-clock-backstop:" : "wall-clock-backstop after ") + phase);
 		}
 		else if (WIFSIGNALED(status) && WTERMSIG(status) == SIGKILL) {
 			res.incon.push_back("killed:" + phase);
@@ -256,7 +273,7 @@ CaseResult evaluate(const Raw& raw, bool escalate)
 	}
 	Failure f;
 	f.sig = phase + ":no-verdict";
-	f.msg = "library call [" + phase + "] did not return within 10 s and 2 x 45 s on a tiny input";
+	f.msg = "library call [" + phase + "] did not return within 10 s and 2 x 45 s of CPU time on a tiny input";
 	r.fails.push_back(f);
 	r.st = CaseResult::FAIL;
 	return r;
